@@ -285,6 +285,7 @@ def construct(kind, weighted, op):
     import json
 
     cp = lambda x: json.loads(json.dumps(x))  # noqa
+    op = cp(op)
     hx = sut()
     cls = {"H": hx.Hypergraph, "D": hx.DirectedHypergraph, "T": hx.TemporalHypergraph, "M": hx.MultiplexHypergraph}[kind]
     kw = {"weighted": weighted}
@@ -318,6 +319,9 @@ def apply_op(kind, h, op):
     import json
 
     cp = lambda x: json.loads(json.dumps(x))  # noqa
+    # every label, time, layer and value reaches the library as a fresh object that is equal to, but not the same object
+    # as, what earlier calls passed (large ints and strings are not interned): code that compares with `is` is exposed
+    op = cp(op)
     name = op["op"]
     form = op.get("form", "t")
     try:
